@@ -63,6 +63,48 @@ pub fn measure(t: &Treap<KeyItem>) -> ShapeStats {
     s
 }
 
+/// height of the Cartesian tree (root = largest priority, or smallest if `min_root`) of a priority sequence; ties go to
+/// the earlier element
+pub fn cartesian_height(p: &[u32], min_root: bool) -> usize {
+    let n = p.len();
+    let above = |a: u32, b: u32| if min_root { a < b } else { a > b };
+    let mut left = vec![usize::MAX; n];
+    let mut right = vec![usize::MAX; n];
+    let mut stack: Vec<usize> = Vec::new();
+    for i in 0..n {
+        let mut last = usize::MAX;
+        while let Some(&top) = stack.last() {
+            if above(p[i], p[top]) {
+                last = top;
+                stack.pop();
+            } else {
+                break;
+            }
+        }
+        left[i] = last;
+        if let Some(&top) = stack.last() {
+            right[top] = i;
+        }
+        stack.push(i);
+    }
+    if n == 0 {
+        return 0;
+    }
+    let root = stack[0];
+    let mut best = 0usize;
+    let mut st = vec![(root, 1usize)];
+    while let Some((v, d)) = st.pop() {
+        best = best.max(d);
+        if left[v] != usize::MAX {
+            st.push((left[v], d + 1));
+        }
+        if right[v] != usize::MAX {
+            st.push((right[v], d + 1));
+        }
+    }
+    best
+}
+
 pub fn height_bound(n: usize) -> f64 {
     5.0 * ((n + 1) as f64).log2() + 20.0
 }
@@ -189,6 +231,7 @@ pub const WORKLOADS: &[&str] = &[
     "tie_storm",
     "cross_thread_merge_few",
     "cross_thread_merge_many",
+    "stride_scan",
 ];
 
 /// Runs one workload to `n` elements. Returns the treap's final stats for the evidence.
@@ -462,6 +505,45 @@ pub fn run_workload(name: &str, n: usize, seed: u64, rep: &mut Report) {
                         return;
                     }
                 }
+            }
+            "stride_scan" => {
+                // A treap whose elements are every q-th created node (q - 1 scratch nodes are created and dropped between two
+                // insertions) is a lawful history for every q. Screening: the priorities of the next M created nodes are
+                // read, and for every stride q <= 4096 the height of the Cartesian tree of the subsequence p[0], p[q], ...
+                // (that is the shape sorted appends give) is computed from the priorities alone. Verdict: the real treaps
+                // for the worst strides are then built with sorted appends and judged by the usual checkpoint.
+                let m = (8 * n).clamp(400_000, 4_000_000);
+                let prios: Vec<u32> = (0..m).map(|i| lib!(TreapNode::new(item(i as u64))).priority).collect();
+                cx.rep.count("priorities_sampled", m as u64);
+                let mut scored: Vec<(f64, usize, usize, usize)> = Vec::new(); // (ratio, stride, len, height)
+                for q in 1..=4096usize {
+                    let l = (m / q).min(3000);
+                    if l < 256 {
+                        break;
+                    }
+                    let sub: Vec<u32> = (0..l).map(|i| prios[i * q]).collect();
+                    let h = cartesian_height(&sub, false).max(cartesian_height(&sub, true));
+                    cx.rep.inc("strides_screened");
+                    scored.push((h as f64 / height_bound(l), q, l, h));
+                }
+                scored.sort_by(|a, b| b.0.partial_cmp(&a.0).unwrap());
+                cx.rep.max("stride_screen_worst_height_over_bound_x100", (scored[0].0 * 100.0) as i64);
+                for &(ratio, q, l, h) in scored.iter().take(3) {
+                    let mut tr: Treap<KeyItem> = Treap::new();
+                    for i in 0..l {
+                        lib!(tr.insert_at(i, item(i as u64)));
+                        for _ in 1..q {
+                            drop(lib!(TreapNode::new(item(0))));
+                        }
+                    }
+                    cx.rep.inc("stride_treaps_built");
+                    let ok = cx.checkpoint(&tr, l, &format!("every {}-th created node, {} sorted appends (screened height {}, {:.2} of the bound)", q, l, h, ratio));
+                    if !ok {
+                        std::mem::forget(tr);
+                        return;
+                    }
+                }
+                len = 0;
             }
             _ => panic!("unknown workload {}", name),
         }
